@@ -118,6 +118,19 @@ func buildKinds() []FieldKind {
 	add("map[string]int", "map", map[string]int(nil),
 		Val{"empty", func() reflect.Value { return reflect.ValueOf(map[string]int{}) }},
 		Val{"nonzero", func() reflect.Value { return reflect.ValueOf(map[string]int{"k": 1}) }})
+	// containers of containers and of structs by value: two members with
+	// different content (a decoder that reuses one scratch element for all
+	// members mixes them up)
+	add("map[string]map[string]int", "map", map[string]map[string]int(nil),
+		Val{"nonzero", func() reflect.Value {
+			return reflect.ValueOf(map[string]map[string]int{"k1": {"a": 1}, "k2": {"b": 2}})
+		}})
+	add("map[string]struct", "map", map[string]Inner(nil),
+		Val{"nonzero", func() reflect.Value {
+			return reflect.ValueOf(map[string]Inner{"k1": {X: 1}, "k2": {Y: "y"}})
+		}})
+	add("[]struct", "slice", []Inner(nil),
+		Val{"nonzero", func() reflect.Value { return reflect.ValueOf([]Inner{{X: 1}, {Y: "y"}}) }})
 	add("*int", "ptr", (*int)(nil),
 		Val{"ptrzero", func() reflect.Value { i := 0; return reflect.ValueOf(&i) }},
 		Val{"nonzero", func() reflect.Value { i := 7; return reflect.ValueOf(&i) }})
